@@ -80,6 +80,7 @@ fn main() {
         "url" => url::run(&args),
         "handover" => handover::run(&args),
         "backpressure" => handover::run_resume(&args),
+        "tuning-builders" => handover::run_tuning(&args),
         "slots-boundary-child" => slots::boundary_child(&args.rest[0]),
         "replay" => {
             let path = args.rest.first().cloned().unwrap_or_else(|| usage());
